@@ -113,6 +113,13 @@ def rule_R7_static(text, mask, ctx):
     return eds
 
 
+def rule_R4b_parse_i32(text, mask, ctx):
+    eds = []
+    for m in re.finditer(r'([A-Za-z_][\w.]*)\.parse::<i32>\(\)', mask):
+        eds.append((m.start(), m.end(), 'v_parse_i32(&%s)' % m.group(1), 'R4b'))
+    return eds
+
+
 def rule_R8_closure_underscore(text, mask, ctx):
     eds = []
     for m in re.finditer(r'\|_\|', mask):
@@ -147,7 +154,7 @@ def rule_R17_method_stubs(text, mask, ctx):
 
 
 RULES = [rule_R7_static, rule_R0_paths, rule_R1_format, rule_R16_doc, rule_R2_chars_collect, rule_R3_streq,
-         rule_R4a_to_string, rule_R8_closure_underscore, rule_R10_halt, rule_R17_method_stubs]
+         rule_R4a_to_string, rule_R4b_parse_i32, rule_R8_closure_underscore, rule_R10_halt, rule_R17_method_stubs]
 
 
 def crate_of(relpath):
@@ -211,6 +218,9 @@ def parse_fn_block(lines, i, tname=''):
                 c = dict(k=int(mm.group(1)), params=mm.group(2), ret=mm.group(3), text=[], tmpl_line='%s:%d' % (tname, i + 1))
                 spec.setdefault('closures', []).append(c)
                 cur = c['text']
+            elif w[0] == 'attr':
+                spec.setdefault('attrs', []).append(d[len('attr'):].strip())
+                cur = None
             elif w[0] == 'norule':
                 spec['rules_off'] += w[1:]
                 cur = None
@@ -389,6 +399,9 @@ class Gen:
             ann_id[0] += 1
             eds.append((pos, pos, '\n' + '\n'.join(body) + '\n', 'A', ('ann', fnname, label, [''] + self._last_tls + [''])))
 
+        for a in spec.get('attrs', []):
+            ls0 = line_start(text, mask.rfind('fn', it['start'], it['name_end']))
+            eds.append((ls0, ls0, a + '\n', 'A1', ('ann', fnname, 'attr')))
         # return value name
         if spec['ret']:
             sig_mask = mask[it['name_end']:bo]
